@@ -87,6 +87,25 @@ def coq_inputs(c):
     return "[" + "; ".join(f"({t}, {'true' if io else 'false'})" for t, io in c["inputs"]) + "]"
 
 
+def cps_z(s):
+    return "[" + "; ".join(f"{ord(c)}%Z" for c in s) + "]"
+
+
+def coq_var_z(v):
+    return f"(mkVar {cps_z(v['name'])} {'true' if v['drop'] else 'false'} {v['ty']}%Z)"
+
+
+def coq_cfg_z(c):
+    """coq_cfg with explicit %Z / nat literals (for files where nat_scope is open)"""
+    bbs = []
+    for b in c["bbs"]:
+        outs = "[" + "; ".join("[" + "; ".join(coq_var_z(v) for v in r) + "]" for r in b["outs"]) + "]"
+        succs = "[" + "; ".join(str(s) for s in b["succs"]) + "]"
+        bbs.append(f"mkBB [{'; '.join(coq_var_z(v) for v in b['in'])}] {outs} {succs}")
+    ret = "[" + "; ".join(f"({t}%Z, {'true' if d else 'false'})" for t, d in c["ret"]) + "]"
+    return f"(mkCfg [{'; '.join(bbs)}] {c['entry']} {c['exit']} {ret})"
+
+
 HEADER = ("From Coq Require Import ZArith List Bool.\nFrom V.C01 Require Import ModelLower ModelObs.\n"
           "Import ListNotations.\nOpen Scope Z_scope.\n")
 
@@ -109,11 +128,11 @@ def expected_obs(rec):
     for i, (b, hb) in enumerate(zip(post["bbs"], blocks)):
         sec_a = [[enc_var(v) for v in b["in"]]] + [[enc_var(v) for v in r] for r in b["outs"]]
         if i == post["exit"]:
-            obs.append([sec_a, [], [], []])
+            obs.append([sec_a, [], [], [], []])
             continue
         if hb is None:
             problems.append(f"block {i} was not compiled")
-            obs.append([sec_a, [], [], []])
+            obs.append([sec_a, [], [], [], []])
             continue
         sec_b = [tys(hb["inputs"])] + [tys(v) for v in hb["variants"]] + [tys(hb["others"])]
         sec_c = []
@@ -128,7 +147,18 @@ def expected_obs(rec):
                 problems.append(f"block {i}: HUGR successor {k} is block {j}, CFG says {b['succs']}")
         if len(hb["succ_nodes"]) != len(b["succs"]):
             problems.append(f"block {i}: {len(hb['succ_nodes'])} HUGR successors, {len(b['succs'])} in the CFG")
-        obs.append([sec_a, sec_b, sec_c, sec_c])
+        sec_e = []
+        cd = hb.get("cond")
+        if cd is not None:
+            if "error" in cd or any("error" in c for c in cd["cases"]):
+                problems.append(f"block {i}: Conditional not readable: {cd}")
+            else:
+                if any(cd["pred_rows"]):
+                    problems.append(f"block {i}: predicate of the Conditional is not a unit sum: {cd['pred_rows']}")
+                if [c["tag"] for c in cd["cases"]] != list(range(len(cd["cases"]))):
+                    problems.append(f"block {i}: case k does not tag with k: {[c['tag'] for c in cd['cases']]}")
+                sec_e = [[[1]], tys(cd["other_inputs"])] + [[[o] for o in c["offsets"]] for c in cd["cases"]]
+        obs.append([sec_a, sec_b, sec_c, sec_c, sec_e])
     return obs, problems
 
 
@@ -144,7 +174,8 @@ def first_diff(a, b, path=()):
     return None if a == b else (path, f"{a} vs {b}")
 
 
-SECTIONS = {0: "signature after insert_return_vars", 1: "block inputs / Sum rows / other outputs",
+SECTIONS = {4: "Conditional of choose_vars_for_tuple_sum (consistency flag, other inputs, per-case Tag input offsets)",
+            0: "signature after insert_return_vars", 1: "block inputs / Sum rows / other outputs",
             2: "row delivered to successor vs its inputs", 3: "row declared by successor"}
 
 
@@ -207,6 +238,89 @@ def shrink(ctx, src, cls, rounds=5, max_cands=30):
 # ---------------------------------------------------------------------------------------------
 
 
+def bridge_phase(ctx, cfg_jobs, cfg_ok_of, by_id):
+    """C06 bridge: evaluate C06's model of check_cfg_linearity on the CheckedCFG[Variable] of the same
+    functions, compare the linear leaves live before each block (c06_live) with the non-droppable
+    places of the rows compile_cfg consumed (the `reads` relation of rows_agree_from_c06), and
+    report every CFG that C06 accepts while cfg_ok is false."""
+    sys.path.insert(0, str(HERE.parent / "C06"))
+    import tie as c06tie
+    cov = {"functions": 0, "c06_unmodelled": 0, "unmodelled_reasons": {}, "c06_accept": 0, "c06_other_verdict": 0,
+           "theorem_hypotheses_hold": 0, "reads_relation_checked_blocks": 0, "reads_mismatches": 0,
+           "c06_accept_but_not_cfg_ok": 0}
+    jobs = []
+    for t, lst in cfg_jobs.items():
+        pid, rec = lst[0]
+        c6 = rec.get("c06")
+        cov["functions"] += 1
+        if not c6 or c6.get("unmodelled") or not c6.get("dump"):
+            cov["c06_unmodelled"] += 1
+            for u in (c6 or {}).get("unmodelled", ["no dump"]):
+                u = u.split(":")[0]
+                cov["unmodelled_reasons"][u] = cov["unmodelled_reasons"].get(u, 0) + 1
+            continue
+        if len(c6["dump"]["blocks"]) != len(rec["post"]["bbs"]):
+            cov["c06_unmodelled"] += 1
+            continue
+        jobs.append((t, pid, rec, c6))
+    if ctx.quick and len(jobs) > 160:
+        cov["not_evaluated_in_quick_tier"] = len(jobs) - 160
+        jobs = jobs[:160]
+    if not jobs:
+        return cov
+    pre = ("From Coq Require Import ZArith List Bool Arith.\nFrom V.C09 Require Import Analysis.\n"
+           "From V.C06 Require Import Linearity Token Hyps.\nFrom V.C01 Require Import ModelLower ModelBridge.\n"
+           "Import ListNotations.\nLocal Open Scope nat_scope.\n")
+
+    def z(t):       # the cfg / var terms carry Z literals
+        import re as _re
+        return t
+
+    def tbl_of(rec, names):
+        vars_ = {}
+        for b in rec["post"]["bbs"]:
+            for r_ in [b["in"]] + b["outs"]:
+                for v in r_:
+                    vars_.setdefault(v["name"], v)
+        return "[" + "; ".join(coq_var_z(vars_[n]) if n in vars_ else f"(mkVar {cps_z(n)} true 0%Z)" for n in names) + "]"
+    per = 16
+    files = {f"br{k}": pre + "\n".join(
+        f"Eval vm_compute in (bridge_obs {c06tie.c_lcfg(c6['dump'])} {tbl_of(rec, c6['names'])} {coq_cfg_z(rec['post'])})."
+        for _, _, rec, c6 in jobs[k * per:(k + 1) * per]) for k in range((len(jobs) + per - 1) // per)}
+    try:
+        outs = ctx.coq_eval_many(files)
+        vals = []
+        for k in range(len(files)):
+            vals += vlib.parse_coq_values(outs[f"br{k}"])
+        if len(vals) != len(jobs):
+            raise RuntimeError(f"bridge: parsed {len(vals)} of {len(jobs)} values")
+    except RuntimeError as e:
+        ctx.report("bridge-eval", "correspondence", "C06 model could not be evaluated on the dumped CFGs", {"error": str(e)[-1500:]}, found_input=False)
+        return cov
+    for (t, pid, rec, c6), (verdict, flags) in zip(jobs, vals):
+        uniform, wf_shape, reads_ok, struct_ok, ok = flags
+        accept = list(verdict) == [0]
+        cov["c06_accept" if accept else "c06_other_verdict"] += 1
+        if not accept:
+            continue
+        hyps_ok = uniform and wf_shape
+        cov["theorem_hypotheses_hold"] += bool(hyps_ok and reads_ok and struct_ok)
+        cov["reads_relation_checked_blocks"] += sum(len(b["succs"]) for i, b in enumerate(rec["post"]["bbs"]) if i != rec["post"]["exit"])
+        detail = {"program_id": pid, "function": rec.get("func_name"), "flags": {"uniform": uniform, "wf_shape": wf_shape,
+                  "reads_b": reads_ok, "cfg_struct_ok": struct_ok, "cfg_ok": ok}, "leaf_names": c6["names"],
+                  "checked_cfg": rec["post"], "program": by_id[pid]["src"]}
+        if hyps_ok and not ok:
+            cov["c06_accept_but_not_cfg_ok"] += 1
+            ctx.report("c06-accept-not-cfg_ok:" + hashlib.sha1(t.encode()).hexdigest()[:12], "counterexample",
+                       "C06's model accepts the checked CFG (uniform, wf_shape) but cfg_ok is false on the CFG compile_cfg consumed", detail)
+        if not reads_ok:
+            cov["reads_mismatches"] += 1
+            if cov["reads_mismatches"] <= 2:
+                ctx.report("bridge-reads:" + hashlib.sha1(t.encode()).hexdigest()[:12], "correspondence",
+                           "rows of the checked CFG are not the C06 model's liveness (reads_b = false: the `reads` hypothesis of rows_agree_from_c06)", detail)
+    return cov
+
+
 def load_corpus():
     out = []
     for f in sorted((HERE / "corpus").glob("*.py")):
@@ -241,11 +355,14 @@ def run(ctx):
     except vlib.TranslatorError as e:
         comps = None
         ctx.notes.append(f"translator failed: {e}")
+    import time
+    t_p = time.time()
     info = ctx.coq_props()
+    ctx.notes.append(f"proof re-check {time.time() - t_p:.0f}s")
     r = vlib.rng(ctx.seed, "C01")
 
     # ---- programs --------------------------------------------------------------------------
-    n_gen = 80 if ctx.quick else 800
+    n_gen = 64 if ctx.quick else 800
     progs = load_corpus()
     n_corpus = len(progs)
     for i in range(n_gen):
@@ -273,6 +390,10 @@ def run(ctx):
         if st in ("ok", "ok_validator_env_mismatch"):
             for f in p.get("feat", []):
                 feats[f] = feats.get(f, 0) + 1
+        if st == "rejected" and res["id"].startswith("corpus/"):
+            ctx.report(f"corpus-rejected:{res['id']}", "correspondence", "a corpus program is no longer accepted",
+                       {"id": res["id"], "error": res.get("error"), "msg": res.get("msg")}, found_input=False)
+            continue
         if st in ("harness_crash", "load_error"):
             ctx.report(f"harness:{res['id']}", "correspondence", "impl_lower.py could not run a program",
                        {"id": res["id"], "error": res.get("error"), "tb": res.get("tb"), "program": p["src"]}, found_input=False)
@@ -315,8 +436,9 @@ def run(ctx):
     model_ok = (vlib.COQ / "C01" / "ModelObs.vo").exists()
     n_compared = n_branching = n_tuplesum = n_noninj = n_distinct_branching = 0
     mismatches = 0
+    vals = None
     if model_ok and texts:
-        per = 60
+        per = 25
         files = {f"obs{k}": HEADER + "\n".join(f"Eval vm_compute in {t}." for t in texts[k * per:(k + 1) * per])
                  for k in range((len(texts) + per - 1) // per)}
         try:
@@ -333,7 +455,12 @@ def run(ctx):
             if info["ok"]:
                 ctx.report("model-eval", "correspondence", "ModelObs.observe could not be evaluated", {"error": str(e)[-1500:]}, found_input=False)
         if vals is not None:
+            cfg_ok_of = {}
             for t, model in zip(texts, vals):
+                try:
+                    cfg_ok_of[t] = model[0][0][0][0][0]
+                except (IndexError, TypeError):
+                    cfg_ok_of[t] = None
                 if any(hb and not hb["exit"] and len(hb["variants"]) > 1 for hb in cfg_jobs[t][0][1]["blocks"]):
                     n_distinct_branching += 1
                 for pid, rec in cfg_jobs[t]:
@@ -365,6 +492,15 @@ def run(ctx):
                                     "types": res_types(results, pid), "checked_cfg_before_insert": rec["pre"],
                                     "program": p["src"],
                                     "replay": "compile `program` with /repo (see props/C01/impl_lower.py) and compare DataflowBlock rows"})
+
+    bridge_cov = {}
+    if model_ok and texts and vals is not None:
+        try:
+            t_br = time.time()
+            bridge_cov = bridge_phase(ctx, cfg_jobs, cfg_ok_of, by_id)
+            ctx.notes.append(f"C06 bridge phase {time.time() - t_br:.0f}s")
+        except Exception as e:  # noqa: BLE001
+            ctx.report("bridge-harness", "correspondence", "C06 bridge phase failed", {"error": f"{type(e).__name__}: {e}"}, found_input=False)
 
     # ---- sort_vars directly --------------------------------------------------------------------
     n_sort = 300 if ctx.quick else 4000
@@ -461,7 +597,7 @@ def run(ctx):
                   "branching_blocks": n_branching, "tuple_sum_blocks": n_tuplesum, "model_mismatches": mismatches,
                   "rows_where_str_is_not_injective_on_ids": n_noninj, "features_in_accepted_programs": feats},
         sort_vars={"rows": len(rows), "disagreements": sort_bad, "key_components": comps},
-        dfcontainer=dfc_cov, validator_selftest=selftest, samples=samples, notes=ctx.notes)
+        c06_bridge=bridge_cov, dfcontainer=dfc_cov, validator_selftest=selftest, samples=samples, notes=ctx.notes)
     return ctx.finish(LEVEL, cov, [
         "the checked CFG satisfies cfg_ok (decidable; evaluated on every compiled CFG of the run, a False is reported)",
         "str(place) identifies place.id within a row (counted per run)",
